@@ -151,6 +151,11 @@ impl<'a> HavokBinaryTagFileReader<'a> {
     fn read_object_member_value(&mut self, member: &HavokObjectTypeMember) -> HavokValue {
         if member.type_.is_array() {
             let array_len = self.read_packed_int();
+            // a length that is negative or larger than the remaining input is corrupt and would
+            // make the loops below run and allocate without end
+            if array_len < 0 || array_len as usize > self.reader.raw().len() {
+                panic!("invalid array length")
+            }
             if member.type_.base_type() == HavokValueType::OBJECT && member.class_name.is_none() {
                 panic!()
             }
@@ -259,6 +264,9 @@ impl<'a> HavokBinaryTagFileReader<'a> {
         let _version = self.read_packed_int();
         let parent = self.read_packed_int();
         let member_count = self.read_packed_int();
+        if member_count as i64 > self.reader.raw().len() as i64 {
+            panic!("invalid member count")
+        }
 
         let parent = self.remembered_types[parent as usize].clone();
         let members = (0..member_count)
